@@ -5,8 +5,8 @@ theorems: lean/HydroVerif/Props/C14.lean.
 Correspondence: (a) the kernel is called through ctypes on libhykern.so (rebuilt from the working tree) and
 the Float instance of the model is run on the same (P, rainfall, maxgapsec, hstartsec, nvalh, varsec,
 varvalues): same error guard or same missing pattern and values within 4 ulp / 1e-12 (bit-equal in
-practice, counted); the exact-rational instance bounds the rounding on small cases; hvalues[nvalh-1] must
-stay untouched. (b) dutils.var2h is called on Series whose DatetimeIndex holds the same wall-clock seconds
+practice, counted); the exact-rational instance bounds the rounding on small cases; hvalues[nvalh-1] (the
+final period) is missing in the model: untouched or NaN in the code agrees. (b) dutils.var2h is called on Series whose DatetimeIndex holds the same wall-clock seconds
 in units s/ms/us/ns, naive or time-zone aware; the call into c_hydrodiy_data.var2h is intercepted (arguments
 recorded, arrays padded with a sentinel so that a start scan running off the end stays inside the
 allocation) and origin, size, epoch seconds, returned values and returned index are compared with the
@@ -16,7 +16,8 @@ piecewise-linear interpolant / of the prorated rainfall increments over every pe
 not covered by the data or has an invalid interval with positive overlap must be missing; a period all of
 whose touching intervals are valid must not be missing; every non-missing value must equal the exact
 period average; runs of consecutive non-missing periods conserve the integral; the result of dutils.var2h
-must be identical for every index unit and time zone holding the same wall-clock stamps.
+must be identical for every index unit and time zone holding the same wall-clock stamps. The final period of the
+output may always be missing; a value returned there is judged like any other (exact average of a covered, valid period).
 Cases: series of 2..400 observations with integer-second stamps, spacing seconds / minutes / 10 min / hours /
 days / mixed, duplicates, stamps exactly on period boundaries, first stamp at offsets 0, 1, 1799, 1800,
 1801, 3599 ... of the hour, gaps of maxgapsec-1 / maxgapsec / maxgapsec+1; values constant, ramp, random,
@@ -234,8 +235,10 @@ def period_verdicts(ex, s, e, h, scale):
     return out, want
 
 
-def check_periods(ctx, entry, case, ex, hstart, outs, tag, shrinker=None):
-    """the property, period by period, on values returned by the real code (`outs` = periods 0..len-1)"""
+def check_periods(ctx, entry, case, ex, hstart, outs, tag, shrinker=None, final=None):
+    """the property, period by period, on values returned by the real code (`outs` = periods 0..len-1).
+    `final` = index of the final period of the output: the property exempts it from "missing exactly when",
+    so a missing value is always accepted there; a returned value is judged like any other."""
     P, rain = ex.P, ex.rain
     scale = max([abs(v) for v in ex.vals if not isnan(v)] + [1.0])
     kind = "rain" if rain else "trapz"
@@ -246,6 +249,8 @@ def check_periods(ctx, entry, case, ex, hstart, outs, tag, shrinker=None):
         s = hstart + i * P
         e = s + P
         verdicts, want = period_verdicts(ex, s, e, h, scale)
+        if i == final:
+            verdicts = [v for v in verdicts if v[0] != "unexpected_missing"]
         for suffix, what, extra in verdicts:
             info = {"period": i, "start": s, "end": e, "returned": None if isnan(h) else h, **extra}
             rcase = {**case, **info}
@@ -279,30 +284,47 @@ def _conservation(ctx, entry, case, run_sum, run_exact, run_len, scale, iend, ki
 
 # ------------------------------------------------------------------------------------------------
 def guard_table(repo):
-    """error code -> guard name, resolved against the *current* source lines"""
-    d = repo / "src" / "hydrodiy" / "data"
-    base = int(re.search(r"#define\s+VAR2H_ERROR\s+(\d+)", (d / "c_var2h.h").read_text()).group(1))
-    lines = (d / "c_var2h.c").read_text().splitlines()
+    """error code -> guard name, resolved against the *current* source (codes written as
+    `VAR2H_ERROR + __LINE__` or as named constants of c_var2h.h); never raises"""
     table = {}
-    for ln, text in enumerate(lines, 1):
-        if "VAR2H_ERROR" in text and "__LINE__" in text:
+    try:
+        d = repo / "src" / "hydrodiy" / "data"
+        defs = dict(re.findall(r"^[ \t]*#define[ \t]+(VAR2H_ERROR\w*)[ \t]+(.+?)[ \t]*(?:/\*.*)?$",
+                               (d / "c_var2h.h").read_text(), re.M))
+
+        def value(name, depth=0):
+            expr = defs[name]
+            for other in sorted(defs, key=len, reverse=True):
+                if other != name and re.search(r"\b" + other + r"\b", expr) and depth < 5:
+                    expr = re.sub(r"\b" + other + r"\b", str(value(other, depth + 1)), expr)
+            if not re.fullmatch(r"[\d\s()+\-*]+", expr):
+                raise ValueError(expr)
+            return int(eval(expr, {"__builtins__": {}}))     # digits, + - * and parentheses only
+        lines = (d / "c_var2h.c").read_text().splitlines()
+        for ln, text in enumerate(lines, 1):
+            m = re.search(r"\breturn\s+\(?\s*(VAR2H_ERROR\w*)\s*(\+\s*__LINE__)?", text)
+            if not m or m.group(1) not in defs:
+                continue
+            code = value(m.group(1)) + (ln if m.group(2) else 0)
             cond = ""
             for k in range(ln - 2, max(ln - 14, -1), -1):
-                m = re.search(r"\bif\s*\((.*)", lines[k])
-                if m and "display" not in m.group(1):
-                    cond = m.group(1).replace(" ", "")
+                mm = re.search(r"\bif\s*\((.*)", lines[k])
+                if mm and "display" not in mm.group(1):
+                    cond = mm.group(1).replace(" ", "")
                     break
             if "rainfall" in cond:
                 name = "badRainfall"
             elif "nbsec_per_period" in cond:
                 name = "badPeriod"
-            elif "varindex<0" in cond:
+            elif "varindex<0" in cond or "nvalvar<2" in cond:
                 name = "startBeforeData"
             elif "t2<t1" in cond or "t1>t2" in cond:
                 name = "decreasing"
             else:
                 name = "unknown-guard:" + cond[:40]
-            table[base + ln] = name
+            table[code] = name
+    except Exception:
+        pass
     return table
 
 
@@ -340,7 +362,7 @@ def body(ctx):
     lib.c_var2h.argtypes = [ctypes.c_int] * 6 + [ctypes.c_void_p, ctypes.c_void_p, ctypes.c_longlong, ctypes.c_void_p]
     guards = guard_table(C.REPO)
     stats = {"kernel_bit_equal": 0, "kernel_within_tol": 0, "wrapper_bit_equal": 0, "wrapper_within_tol": 0,
-             "rat_cases": 0, "variants": 0, "periods_checked": 0, "periods_nonmissing": 0}
+             "rat_cases": 0, "variants": 0, "periods_checked": 0, "periods_nonmissing": 0, "final_period_returned": 0}
 
     # ---- the Cython boundary: record the arguments, pad the arrays with a sentinel
     class Proxy:
@@ -396,9 +418,9 @@ def body(ctx):
                             "whose first stamp is not later than the origin", {**case, "ierr": ierr, "guard": impl})
         else:
             outs = [float(x) for x in hv[:max(nvalh - 1, 0)]]
-            impl = outs
-            if nvalh >= 1 and hv[nvalh - 1] != SENT:
-                ctx.finding("kernel/last_value_written", "c_var2h wrote hvalues[nvalh-1]", {**case, "value": float(hv[nvalh - 1])})
+            # final period: untouched (the caller's pre-fill) counts as missing
+            last = [] if nvalh < 1 else [float("nan") if hv[nvalh - 1] == SENT else float(hv[nvalh - 1])]
+            impl = outs + last
             if hv[max(nvalh, 0)] != SENT:
                 ctx.finding("kernel/write_past_hvalues", "c_var2h wrote past hvalues", dict(case))
             if wellformed:
@@ -426,9 +448,11 @@ def body(ctx):
                                     "end": s0 + P, "returned": None if isnan(h2) else h2, **extra,
                                     "shrunk_from": {"n": len(secs), "period": i, "gen": case.get("gen")}}
                     return None
-                nontrivial = check_periods(ctx, "kernel", case, ex, hstart, outs, tag, shrinker)
-                stats["periods_checked"] += len(outs)
-                stats["periods_nonmissing"] += sum(1 for x in outs if not isnan(x))
+                nontrivial = check_periods(ctx, "kernel", case, ex, hstart, outs + last, tag, shrinker,
+                                           final=(nvalh - 1 if last else None))
+                stats["periods_checked"] += len(outs) + len(last)
+                stats["periods_nonmissing"] += sum(1 for x in outs + last if not isnan(x))
+                stats["final_period_returned"] += sum(1 for x in last if not isnan(x))
         reqs.append(f"kernel {P} {rain} {maxgap} {C.f2h(EPS)} {hstart} {nvalh} {C.ilist(secs)} {C.flist(vals)}")
         pend.append(("kernel", impl, case, scale))
         if case.get("rat"):
@@ -462,25 +486,28 @@ def body(ctx):
         proxy.calls.clear()
         try:
             r = dutils.var2h(se, nbsec_per_period=P, maxgapsec=maxgap, rainfall=bool(rain))
-        except ValueError as exc:
+        except Exception as exc:      # whatever class the wrapper raises (ValueError, RuntimeError, TypeError, ...)
             msg = str(exc)
-            m = re.search(r"var2h returns (\d+)", msg)
-            if m:
+            m = re.search(r"\b(1[0-9]{5})\b", msg)
+            if m and proxy.calls:
                 name = guards.get(int(m.group(1)), "code" + m.group(1))
             elif "nbsec_per_period" in msg:
                 name = "badPeriod"
             elif "maxgapsec" in msg:
                 name = "badMaxgap"
             else:
-                name = "ValueError:" + msg[:60]
+                name = type(exc).__name__ + ":" + msg[:60]
             return ("err", name), (proxy.calls[-1] if proxy.calls else None)
         rec = proxy.calls[-1] if proxy.calls else None
-        ridx = r.index
-        if getattr(ridx, "tz", None) is not None:
-            ridx = ridx.tz_localize(None)
-        isecs = [int(x) for x in ridx.values.astype("datetime64[s]").astype("int64")]
-        exact_idx = bool(np.all(ridx.values == ridx.values.astype("datetime64[s]")))
-        return ("ok", [float(x) for x in r.values], isecs, exact_idx), rec
+        try:
+            ridx = r.index
+            if getattr(ridx, "tz", None) is not None:
+                ridx = ridx.tz_localize(None)
+            isecs = [int(x) for x in ridx.values.astype("datetime64[s]").astype("int64")]
+            exact_idx = bool(np.all(ridx.values == ridx.values.astype("datetime64[s]")))
+            return ("ok", [float(x) for x in r.values], isecs, exact_idx), rec
+        except Exception as exc:      # a result that is not a float series on a DatetimeIndex
+            return ("err", "bad-result:" + type(exc).__name__), rec
 
     def run_wrapper_case(case, tag):
         secs, vals = case["secs"], dec_vals(case["vals"])
@@ -517,10 +544,12 @@ def body(ctx):
                             ctx.finding("var2h/index_not_periods", "the returned index is not origin + i*period",
                                         {**vcase, "index": res[2][:5], "origin": rec["hstartsec"]})
                         ex = Exact(secs, vals, P, rain, maxgap)
-                        outs = res[1][:-1] if res[1] else []
-                        nontrivial = check_periods(ctx, "var2h", vcase, ex, rec["hstartsec"], outs, tag)
+                        outs = res[1]
+                        nontrivial = check_periods(ctx, "var2h", vcase, ex, rec["hstartsec"], outs, tag,
+                                                   final=len(outs) - 1)
                         stats["periods_checked"] += len(outs)
                         stats["periods_nonmissing"] += sum(1 for x in outs if not isnan(x))
+                        stats["final_period_returned"] += sum(1 for x in outs[-1:] if not isnan(x))
                 reqs.append(f"wrapper {P} {rain} {maxgap} {C.f2h(EPS)} {C.ilist(secs)} {C.flist(vals)}")
                 pend.append(("wrapper", impl, vcase, scale))
             else:
@@ -705,12 +734,14 @@ def body(ctx):
                 ok = rep == impl
             elif rep.startswith("ok "):
                 toks = C.parse_list(rep[3:])
+                nlast = 1 if case["nvalh"] >= 1 else 0     # hvalues[nvalh-1]: never written by the model
                 if kind == "kernel":
-                    mv = [C.h2f(t) for t in toks]
+                    mv = [C.h2f(t) for t in toks] + [float("nan")] * nlast
                     ok, bit = compare_lists(impl, mv, scale)
                     if ok:
                         stats["kernel_bit_equal" if bit else "kernel_within_tol"] += 1
                 else:
+                    toks = toks + ["nan"] * nlast
                     ok = len(toks) == len(impl) and all(
                         (t == "nan") == isnan(a) and (t == "nan" or
                                                       abs(Fraction(a) - Fraction(t)) <= 1e-12 * len(case["secs"]) * (scale + abs(a)))
